@@ -295,77 +295,119 @@ example :
        .act .continue_, .wake, .run]).pc = 4 := by
   decide
 
-/-! ## Second layer: the DAP adapter's stop filter (`trust-debug/src/adapter/stop.rs`)
+/-! ## Second layer: the DAP adapter's stop filter (`trust-debug/src/adapter/stop.rs`, as of d5a9ac8)
 
-Claim examined: "every runtime stop is either emitted to the client or followed by a resume".
-`shouldEmitStop` mirrors `StopCoordinator::should_emit_stop`; `astep` adds the stop channel, the
-`pause_expected` flag and the request handlers of `run_control.rs`.  The claim is **refuted** for
-breakpoint stops (stale generation), and the filter is characterised exactly. -/
+Claim examined: "every runtime stop is either emitted to the client or the runtime has already been
+resumed", as the state predicate `told`: whenever the runtime is parked for good and the coordinator
+has drained the channel, the client received a `stopped` event after its last continue/step request.
+`shouldEmitStop` mirrors `StopCoordinator::should_emit_stop` (with the `still_parked` input);
+`astep` adds the stop channel, the `pause_expected` flag and the request handlers of
+`run_control.rs`.  The stale-generation wedge (finding C17-adapter-stale-generation) is gone; one
+residual window remains and is pinned down exactly. -/
 
 /-- A `Step` stop is never dropped. -/
-theorem c17_adapter_step_emitted (st : Stop) (pe : Bool) (gens : List (Nat × Nat))
-    (h : st.reason = .step) : (shouldEmitStop st pe gens).1 = true := by
+theorem c17_adapter_step_emitted (st : Stop) (pe : Bool) (gens : List (Nat × Nat)) (sp : Bool)
+    (h : st.reason = .step) : (shouldEmitStop st pe gens sp).1 = true := by
   simp [shouldEmitStop, h]
 
 /-- A `Pause`/`Entry` stop is emitted iff a pause was expected (and consumes the expectation). -/
-theorem c17_adapter_pause_emitted_iff (st : Stop) (pe : Bool) (gens : List (Nat × Nat))
+theorem c17_adapter_pause_emitted_iff (st : Stop) (pe : Bool) (gens : List (Nat × Nat)) (sp : Bool)
     (h : st.reason = .pause ∨ st.reason = .entry) :
-    (shouldEmitStop st pe gens).1 = pe ∧ (shouldEmitStop st pe gens).2 = false := by
+    (shouldEmitStop st pe gens sp).1 = pe ∧ (shouldEmitStop st pe gens sp).2 = false := by
   rcases h with h | h <;> simp [shouldEmitStop, h]
 
-/-- A `Breakpoint` stop is emitted iff it carries a location and a generation and that generation
-is still the control's current generation for the file — i.e. it is dropped as soon as
-`set_breakpoints_for_file` ran for that file between the hit and the coordinator's turn. -/
-theorem c17_adapter_breakpoint_emitted_iff (st : Stop) (pe : Bool) (gens : List (Nat × Nat))
+/-- A `Breakpoint` stop is emitted iff it carries a location and a generation and either that
+generation is still current for the file or the runtime is still parked on this very stop. -/
+theorem c17_adapter_breakpoint_emitted_iff (st : Stop) (pe : Bool) (gens : List (Nat × Nat)) (sp : Bool)
     (h : st.reason = .breakpoint) :
-    (shouldEmitStop st pe gens).1 = true ↔
-      ∃ l g, st.loc = some l ∧ st.gen = some g ∧ alookup gens l.file = some g := by
+    (shouldEmitStop st pe gens sp).1 = true ↔
+      ∃ l g, st.loc = some l ∧ st.gen = some g ∧ (alookup gens l.file = some g ∨ sp = true) := by
   cases hl : st.loc <;> cases hg : st.gen <;> simp [shouldEmitStop, h, hl, hg]
 
-/-- **Counterexample (stale breakpoint generation).**  setBreakpoints; the cycle thread hits the
-breakpoint and parks; setBreakpoints for the same file arrives before the coordinator handles the
-stop; the coordinator drops it.  Result: the runtime is parked for good (a wake-up changes
-nothing), one stop was produced by the runtime, nothing was emitted, the client was never told,
-and nothing resumes the runtime. -/
-theorem c17_adapter_counterexample_stale_generation :
+/-- Every stop flagged expected-or-not, *in any state*: whatever the filter drops while consuming the
+`pause_expected` flag, the flag is `false` afterwards (also when a Breakpoint stop is dropped — this
+is the ingredient of the residual window below). -/
+theorem c17_adapter_flag_cleared (st : Stop) (pe : Bool) (gens : List (Nat × Nat)) (sp : Bool) :
+    (shouldEmitStop st pe gens sp).2 = false := by
+  unfold shouldEmitStop
+  cases st.reason <;> simp
+  cases st.loc <;> simp
+  cases st.gen <;> simp
+
+/-- **The fixed finding.**  The former witness (setBreakpoints; breakpoint hit; setBreakpoints for
+the same file before the coordinator's turn; coordinator) now ends with the stop emitted and the
+client told: the runtime is still parked on that very stop, so the stale generation no longer
+drops it. -/
+theorem c17_adapter_stale_generation_fixed :
     (aexec ASys.init
       [.reqSetBps 0 [demoBp], .hook (some ⟨0, 0, 10⟩) 0, .reqSetBps 0 [demoBp], .coord]).quiescentParked = true ∧
     (aexec ASys.init
-      [.reqSetBps 0 [demoBp], .hook (some ⟨0, 0, 10⟩) 0, .reqSetBps 0 [demoBp], .coord]).d.stops.length = 1 ∧
+      [.reqSetBps 0 [demoBp], .hook (some ⟨0, 0, 10⟩) 0, .reqSetBps 0 [demoBp], .coord]).emitted.length = 1 ∧
     (aexec ASys.init
-      [.reqSetBps 0 [demoBp], .hook (some ⟨0, 0, 10⟩) 0, .reqSetBps 0 [demoBp], .coord]).emitted = [] ∧
-    (aexec ASys.init
-      [.reqSetBps 0 [demoBp], .hook (some ⟨0, 0, 10⟩) 0, .reqSetBps 0 [demoBp], .coord]).clientStopped = false := by
+      [.reqSetBps 0 [demoBp], .hook (some ⟨0, 0, 10⟩) 0, .reqSetBps 0 [demoBp], .coord]).clientStopped = true := by
   decide
 
-/-- Hence the adapter-level claim does not hold for all interleavings. -/
+/-- **Residual window (counterexample to the unguarded claim).**  A resume request is handled while
+a Breakpoint stop is still unprocessed in the channel (the client resumes a stop it was never told
+about), the stop goes stale, and a pause follows: breakpoint hit `Y`; step request (the thread is
+not woken yet); pause request (`pause_expected := true`, Pause pending); setBreakpoints (`Y` stale);
+the thread wakes and announces the Pause stop `X` at the same statement.  The coordinator drops `Y`
+— correctly, the runtime was resumed after it — but that already cleared `pause_expected`, so it
+drops `X` too: the runtime is parked for good on `X`, nothing was emitted, the client was never
+told. -/
+theorem c17_adapter_counterexample_residual :
+    (aexec ASys.init
+      [.reqSetBps 0 [demoBp], .hook (some ⟨0, 0, 10⟩) 0, .reqStep (.stepIn none), .reqPause,
+       .reqSetBps 0 [demoBp], .wake, .coord, .coord]).quiescentParked = true ∧
+    (aexec ASys.init
+      [.reqSetBps 0 [demoBp], .hook (some ⟨0, 0, 10⟩) 0, .reqStep (.stepIn none), .reqPause,
+       .reqSetBps 0 [demoBp], .wake, .coord, .coord]).d.stops.length = 2 ∧
+    (aexec ASys.init
+      [.reqSetBps 0 [demoBp], .hook (some ⟨0, 0, 10⟩) 0, .reqStep (.stepIn none), .reqPause,
+       .reqSetBps 0 [demoBp], .wake, .coord, .coord]).emitted = [] ∧
+    (aexec ASys.init
+      [.reqSetBps 0 [demoBp], .hook (some ⟨0, 0, 10⟩) 0, .reqStep (.stepIn none), .reqPause,
+       .reqSetBps 0 [demoBp], .wake, .coord, .coord]).clientStopped = false := by
+  decide
+
+/-- Hence the adapter-level claim still does not hold for *all* interleavings. -/
 theorem c17_adapter_counterexample : ¬ ∀ ls : List ALabel, (aexec ASys.init ls).told = true := by
   intro h
-  have := h [.reqSetBps 0 [demoBp], .hook (some ⟨0, 0, 10⟩) 0, .reqSetBps 0 [demoBp], .coord]
+  have := h [.reqSetBps 0 [demoBp], .hook (some ⟨0, 0, 10⟩) 0, .reqStep (.stepIn none), .reqPause,
+    .reqSetBps 0 [demoBp], .wake, .coord, .coord]
   revert this
   decide
 
-/-- **Partial theorem (adapter layer).**  Under the explicit, decidable guard `runOk` — every
-`setBreakpoints` request carries only breakpoints of the file it names and is handled at a moment
-when no Breakpoint stop is waiting in the stop channel, which excludes exactly the window of the
-counterexample — the claim holds for every interleaving of hook calls, wake-ups, pause / continue /
-step requests, breakpoint changes and coordinator turns: whenever the runtime is parked for good
-and the coordinator has drained the channel, the client has received a `stopped` event since its
-last continue/step request.  (Stale *pause* expectations, dropped duplicate Pause stops etc. are
-all covered; the only way to lose the notification is the stale breakpoint generation.) -/
+/-- **Partial theorem (adapter layer).**  Under the explicit, decidable guard `runOk` — no
+continue/step request is handled while a Breakpoint stop is still waiting in the stop channel, i.e.
+the client does not resume a breakpoint stop it has not been told about; breakpoint changes are
+*unrestricted* (any files, any moment) — the claim holds for every interleaving of hook calls,
+wake-ups, pause / continue / step requests, breakpoint changes and coordinator turns: whenever the
+runtime is parked for good and the coordinator has drained the channel, the client has received a
+`stopped` event since its last continue/step request. -/
 theorem c17_adapter_told_partial (ls : List ALabel) (hok : ASys.init.runOk ls = true) :
     (aexec ASys.init ls).told = true :=
   told_of_ainv _ (ainv_exec ls _ ainv_init hok)
 
-/-- The guard is satisfiable by runs that do reach a parked, notified state with breakpoints … -/
-example : ASys.init.runOk [.reqSetBps 0 [demoBp], .hook (some ⟨0, 0, 10⟩) 0, .coord] = true ∧
-    (aexec ASys.init [.reqSetBps 0 [demoBp], .hook (some ⟨0, 0, 10⟩) 0, .coord]).quiescentParked = true ∧
-    (aexec ASys.init [.reqSetBps 0 [demoBp], .hook (some ⟨0, 0, 10⟩) 0, .coord]).clientStopped = true := by
+/-- The guard admits the former witness of the fixed finding (setBreakpoints between hit and
+coordinator) … -/
+example : ASys.init.runOk
+    [.reqSetBps 0 [demoBp], .hook (some ⟨0, 0, 10⟩) 0, .reqSetBps 0 [demoBp], .coord] = true := by
   decide
 
-/-- … and it is exactly what the counterexample run violates. -/
+/-- … and ordinary sessions that resume after being told … -/
 example : ASys.init.runOk
-    [.reqSetBps 0 [demoBp], .hook (some ⟨0, 0, 10⟩) 0, .reqSetBps 0 [demoBp], .coord] = false := by
+    [.reqSetBps 0 [demoBp], .hook (some ⟨0, 0, 10⟩) 0, .coord, .reqContinue, .wake, .reqPause,
+     .hook (some ⟨0, 12, 20⟩) 0, .coord] = true ∧
+    (aexec ASys.init
+      [.reqSetBps 0 [demoBp], .hook (some ⟨0, 0, 10⟩) 0, .coord, .reqContinue, .wake, .reqPause,
+       .hook (some ⟨0, 12, 20⟩) 0, .coord]).quiescentParked = true := by
+  decide
+
+/-- … and it is exactly what the residual counterexample violates (at its step request). -/
+example : ASys.init.runOk
+    [.reqSetBps 0 [demoBp], .hook (some ⟨0, 0, 10⟩) 0, .reqStep (.stepIn none), .reqPause,
+     .reqSetBps 0 [demoBp], .wake, .coord, .coord] = false := by
   decide
 
 end TrustVerif.C17
